@@ -79,25 +79,22 @@ func execLRU(c lruCase, _ *kit.Env) kit.Outcome {
 				return fail(i, "lookup", "Lookup = (%d,%v), model says (%d,%v)", got, found, want, ok)
 			}
 		case "bind":
-			old := wayKey[op.A]
+			// consumers (TLB, mmuCache) derive oldKey from the block payload of the way,
+			// which keeps its last key after a Remove and is the zero key before any fill
+			old, ok := wayKey[op.A]
+			if !ok {
+				old = lruset.KeyString(0, 0)
+			}
+
 			nk := lruKey(op.B)
 			set.UpdateKey(op.A, old, nk)
 			delete(keyMap, old)
-
-			if prev, ok := keyMap[nk]; ok {
-				delete(wayKey, prev) // the key moved to another way
-			}
-
 			keyMap[nk] = op.A
 			wayKey[op.A] = nk
 		case "remove":
 			k := lruKey(op.A)
 			set.Remove(k)
-
-			if w, ok := keyMap[k]; ok {
-				delete(keyMap, k)
-				delete(wayKey, w)
-			}
+			delete(keyMap, k) // the payload of the way keeps the key
 		case "evict":
 			got, ok := set.Evict()
 			if len(recency) == 0 {
@@ -191,7 +188,7 @@ func init() {
 		Level: "exploration",
 		Rule: "histories of Lookup/UpdateKey/Remove/Evict/Visit/JSON-restart on lruset.Set with 1-8 ways and 1-10 keys, compared step by step with a (key map, recency list) model and drained completely at the end; " +
 			"distinct = hash of the history; non-trivial = at least 5 operations and one eviction",
-		Assumptions: []string{"UpdateKey is called the way the TLB and mmuCache call it: with the key the way is currently bound to as oldKey", "no clock or concurrency: JSON restart is the only fault"},
+		Assumptions: []string{"UpdateKey is called the way the TLB and mmuCache call it: oldKey is the key in the way's block payload (the zero key before the first fill, and still the old key after a Remove)", "no clock or concurrency: JSON restart is the only fault"},
 		Real:        []string{"lruset.Set", "lruset JSON codec"},
 		Stubs:       []string{},
 		FaultKinds:  []string{"restart(json)"},
